@@ -168,6 +168,7 @@ func checkC03(c *Ctx) {
 		}
 	}
 	flowC03(c)
+	c.Run.Advisory("R4.wiring", "R4.methods")
 	statelessRoots(c, "R7.stateless", "EncryptFRMPayload", "EncryptFOpts", "PHYPayload.EncryptFRMPayload", "PHYPayload.DecryptFRMPayload", "PHYPayload.EncryptFOpts", "PHYPayload.DecryptFOpts")
 }
 
